@@ -578,8 +578,8 @@ Proof.
     destruct o; cbn [step] in H.
     - right. left. apply cext_tasks. unfold on_new_worker in H. inversion H; subst. reflexivity.
     - right. right. destruct (find_proc _ w); [|discriminate]. eapply on_remove_worker_LR; [exact Hs | exact H].
-    - right. left. eapply handle_submit_array_cext; exact H.
-    - destruct (bad_graph_rq _ _); [inversion H; subst; right; left; apply cext_tasks; reflexivity|]. right. left. eapply handle_submit_graph_cext; exact H.
+    - destruct (bad_submit_lengths _ _); [inversion H; subst; right; left; apply cext_tasks; reflexivity|]. right. left. eapply handle_submit_array_cext; exact H.
+    - destruct (bad_graph_rq _ _); [inversion H; subst; right; left; apply cext_tasks; reflexivity|]. destruct (dead_dep _ _ _); [inversion H; subst; right; left; apply cext_tasks; reflexivity|]. right. left. eapply handle_submit_graph_cext; exact H.
     - right. left. apply cext_tasks. unfold handle_open in H. inversion H; subst. reflexivity.
     - right. left. apply cext_tasks. unfold handle_close in H.
       destruct (find_job _ j) as [jb|]; [|inversion H; subst; reflexivity].
